@@ -242,6 +242,11 @@ register(
         ("core_async", 3, gen_core("async", 32, **_C03_COMMON)),
         ("async_yield", 2, gen_core("async", 33, p_async_act=0.4, **_C03_COMMON)),
         ("sync_timers", 1, gen_core("sync", 34, ops_kw={"p_adv": 0.3}, p_after=0.3, **_C03_COMMON)),
+        # transitions declared on a compound / parallel state (or inside it) that target that state's OWN history child
+        ("own_history_sync", 2, gen_core("sync", 35, hist_parallel=True, w_target={"own_history": 6, "any": 3, "sibling": 2, "none": 1},
+                                        **dict(_C03_COMMON, p_history=0.6, p_parallel=0.4, p_compound=0.45))),
+        ("own_history_async", 1, gen_core("async", 36, hist_parallel=True, w_target={"own_history": 6, "any": 3, "sibling": 2, "none": 1},
+                                         **dict(_C03_COMMON, p_history=0.6, p_parallel=0.4, p_compound=0.45))),
     ],
     oracle=O.oracle_c03,
     level="exploration",
@@ -264,6 +269,11 @@ register(
         # candidates sharing a guard TYPE but differing in params / operands (parameterised, stateIn, composites)
         ("sel_rich_sync", 2, gen_core("sync", 25, ops_kw={"p_can": 0.25}, rich_guards=True, w_missing_guard=0.0, **dict(_C02_COMMON, p_always=0.0))),
         ("sel_rich_async", 2, gen_core("async", 26, ops_kw={"p_can": 0.25}, rich_guards=True, w_missing_guard=0.0, **dict(_C02_COMMON, p_always=0.0))),
+        # wildcard ("*") and partial ("E1.*") descriptors, also forbidden ones, beside exact keys on the same state and on ancestors:
+        # the candidates of ONE state are those of every matching key, so a state whose exact candidates are all disabled still
+        # nominates its own enabled wildcard candidate before any ancestor is asked
+        ("sel_wild_sync", 2, gen_core("sync", 27, ops_kw={"p_can": 0.25}, p_wildcard=0.35, **dict(_C02_COMMON, p_guard=0.7))),
+        ("sel_wild_async", 2, gen_core("async", 28, ops_kw={"p_can": 0.25}, p_wildcard=0.35, **dict(_C02_COMMON, p_guard=0.7))),
     ],
     oracle=O.oracle_c02,
     level="exploration",
@@ -339,6 +349,10 @@ def gen_c04(engine, mode):
                 k = rng.randint(2, len(ops))
                 ops.insert(k, {"op": "settle"})
         sc = _base(seed, engine, out, ops, horizon=t + 500 * MS)
+        if engine == "sync" and mode != "burst" and rng.random() < 0.3:
+            # a plugin whose on_interpreter_start hook sends events (single and as a batch) to the interpreter being started
+            hs = [{"type": rng.choice(mg.events), "tag": 9000 + j, "p": 9} for j in range(rng.randint(1, 3))]
+            sc["start_hook_sends"] = hs[:1] + ([{"events": hs[1:]}] if len(hs) > 1 else [])
         if engine == "sync" and mode == "threads":
             r = rng.random()
             if r < 0.6:
@@ -444,7 +458,10 @@ register(
               ("done_timers_async", 1, gen_c10("async", 63, p_after=0.3, p_invoke=0.2, svc_kinds=("coro", "sync"))),
               # the machine completes (or is stopped) while invoked child machines, their timers and their own actors are alive
               ("done_machines_async", 1, gen_c10("async", 64, p_after=0.2, p_invoke=0.35, svc_kinds=("machine", "coro"), ops_kw={"n_lo": 5, "n_hi": 12, "p_adv": 0.25})),
-              ("done_machines_sync", 1, gen_c10("sync", 65, p_after=0.2, p_invoke=0.35, svc_kinds=("machine", "sync"), ops_kw={"n_lo": 5, "n_hi": 12, "p_adv": 0.25}))],
+              ("done_machines_sync", 1, gen_c10("sync", 65, p_after=0.2, p_invoke=0.35, svc_kinds=("machine", "sync"), ops_kw={"n_lo": 5, "n_hi": 12, "p_adv": 0.25})),
+              # wildcard / partial / forbidden descriptors on the completing states and inside their regions: the engine's own
+              # done.state notification is answered by onDone only
+              ("done_wild_sync", 2, gen_c10("sync", 66, p_wildcard=0.4)), ("done_wild_async", 1, gen_c10("async", 67, p_wildcard=0.4))],
     oracle=O.oracle_c10,
     stats=O.stats_c10,
     level="exploration",
@@ -509,6 +526,34 @@ register(
 _C16 = dict(p_history=0.4, p_compound=0.4, p_parallel=0.4, p_final=0.08, p_always=0.08, p_raise=0.08, n_states=(6, 13),
             p_trans=0.6, w_target={"history": 5, "any": 5, "ancestor": 2}, p_extra_entry=0.2)
 
+def gen_c16_emit(engine, salt):
+    """Machines whose action lists run the `emit` built-in while three listeners (one for the type, two wildcard ones) are
+    registered: the order in which user callbacks run must not depend on object addresses."""
+    base = gen_core(engine, salt, **_C16)
+
+    def g(seed):
+        sc = base(seed)
+        rng = _rng(seed, salt + 1000)
+        note = {"type": "xstate.emit", "params": {"event": {"type": "NOTE"}}}
+
+        def walk(c):
+            for f in ("entry", "exit"):
+                if isinstance(c.get(f), list) and rng.random() < 0.4:
+                    c[f] = c[f] + [dict(note)]
+            for ev, tc in (c.get("on") or {}).items():
+                for t in (tc if isinstance(tc, list) else [tc]):
+                    if isinstance(t, dict) and isinstance(t.get("actions"), list) and rng.random() < 0.4:
+                        t["actions"] = t["actions"] + [dict(note)]
+            for ch in (c.get("states") or {}).values():
+                walk(ch)
+        walk(sc["machine"])
+        # eight listeners in all: an address-ordered container of them has 8! orders, so two executions with different
+        # heap layouts practically never agree by accident (and the replay, a fresh process, diverges as well)
+        sc["extra_listeners"] = 5
+        return sc
+    return g
+
+
 def gen_c16_actors(engine):
     """Actor scenarios (the C15 command interpreter) whose explicit actor ids are short hex-like strings while generated ids
     are uuid4-shaped and differ in every execution: "generated identifiers ... never influence ordering or selection"."""
@@ -537,7 +582,8 @@ register(
               ("det_pure", 1, gen_core("pure", 163, **_C16)),
               ("det_hist_parallel_sync", 1, gen_core("sync", 164, hist_parallel=True, **_C16)),
               ("det_timers_async", 1, gen_core("async", 165, ops_kw={"p_adv": 0.3}, p_after=0.3, p_invoke=0.2, svc_kinds=("coro", "sync"), **_C16)),
-              ("det_actors_sync", 1, gen_c16_actors("sync")), ("det_actors_async", 1, gen_c16_actors("async"))],
+              ("det_actors_sync", 1, gen_c16_actors("sync")), ("det_actors_async", 1, gen_c16_actors("async")),
+              ("det_emit_sync", 1, gen_c16_emit("sync", 166)), ("det_emit_async", 1, gen_c16_emit("async", 167))],
     runner=O.run_c16,
     level="exploration",
     chunk=20,
@@ -563,8 +609,8 @@ _C05 = dict(p_callable_output=0.3, p_on_done=0.5, p_history=0.0, p_parallel=0.25
             p_enq=0.0, n_states=(4, 11), p_extra_entry=0.25, assign_only=True)
 
 
-def gen_c05(salt, legs, **kw):
-    base = gen_core("sync", salt, **dict(_C05, **kw))
+def gen_c05(salt, legs, ops_kw=None, **kw):
+    base = gen_core("sync", salt, ops_kw=ops_kw, **dict(_C05, **kw))
 
     def g(seed):
         sc = base(seed)
@@ -589,6 +635,10 @@ register(
               # delays and spawn actions, walked through the pure API only
               # done.state data computed by a dynamic (callable) output of the completing final state
               ("eq_done_data", 2, gen_c05(58, ("sync", "async", "pure"), p_final=0.35, p_on_done=1.0, p_callable_output=0.6, p_compound=0.45)),
+              # batches (send_events): everything the head of a batch queues internally (raise, done.state, a synchronous service's
+              # result) is behind the rest of the batch in BOTH engines; the pure API has no batch form, so no pure leg
+              ("eq_batches", 2, gen_c05(59, ("sync", "async", "async2"), ops_kw={"p_batch": 0.4}, p_raise=0.3, p_final=0.25, p_on_done=0.8,
+                                        p_compound=0.4)),
               ("pure_starts_nothing", 1, gen_c05(57, ("pure",), p_invoke=0.5, svc_kinds=("sync", "machine"), p_after=0.4, p_raise=0.1)),
               ("eq_hist_parallel", 1, gen_c05(55, ("sync", "async"), hist_parallel=True, p_parallel=0.4, p_history=0.4, p_raise=0.1,
                                               p_choose=0.1, p_enq=0.1))],
@@ -826,7 +876,7 @@ register(
 # ===========================================================================
 from . import c12 as C12  # noqa: E402
 
-_C12 = dict(p_list_ctx=0.25, p_falsy_output=0.35, p_history=0.3, p_parallel=0.25, p_final=0.12, p_always=0.08, p_raise=0.08, p_assign=0.3, n_states=(4, 11),
+_C12 = dict(p_list_ctx=0.25, p_pop_ctx=0.25, p_falsy_output=0.35, p_history=0.3, p_parallel=0.25, p_final=0.12, p_always=0.08, p_raise=0.08, p_assign=0.3, n_states=(4, 11),
             w_target={"history": 4}, p_on_done=0.6)
 
 
